@@ -152,7 +152,7 @@ static void mapped_variants(const char *sub, const char *name) {
  * pre-filters that a one-character one does not */
 static void reserved_extensions(const char *suf) {
     static const char EXT[] = "aly1-x"; static const char *const PX[] = { "", "m.", "abcdefg.", "a.b." }; char d2[200];
-    if (strchr(suf, '.')) return;
+    /* dotted suffixes too: example.com-x, example.orgs, xexample.com are ordinary names */
     for (int a = 0; a < 6; a++) for (int b = -1; b < 6; b++) for (int c = -1; c < (b < 0 ? 0 : 6); c++) for (int k = 0; k < 4; k++) {
         char e[8]; int l = 0; e[l++] = EXT[a]; if (b >= 0) e[l++] = EXT[b]; if (c >= 0) e[l++] = EXT[c]; e[l] = 0;
         snprintf(d2, sizeof d2, "%s%s%s", PX[k], suf, e); check_class("extension", d2, strlen(d2));
@@ -227,7 +227,7 @@ static void rows_shard(long shard, void *arg) {
 }
 static void short_shard(long shard, void *arg) {
     (void)arg; static const char AL[] = "abcdefghijklmnopqrstuvwxyz0123456789"; char d[16] = "a.";
-    { static const char *const R5[5] = { "test", "example", "invalid", "localhost", "onion" }; if (shard < 5) reserved_extensions(R5[shard]); }
+    { static const char *const R8[8] = { "test", "example", "invalid", "localhost", "onion", "example.com", "example.net", "example.org" }; if (shard < 8) reserved_extensions(R8[shard]); }
     d[2] = AL[shard]; check_class("short", d, 3);
     for (int b = 0; b < 36; b++) {
         d[3] = AL[b]; check_class("short", d, 4);
